@@ -2,6 +2,18 @@ package main
 
 // Checks is the registry: which harness entry points decide which property, under which bounds.
 var Checks = []Check{
+	{ID: "C08", Entries: []Entry{
+		{Pkg: "act", Func: "VerifC08History", Shards: 18, Params: map[string]int64{"children": 2, "events": 3}, Thorough: map[string]int64{"children": 3, "events": 4},
+			What: "real act.Supervisor (ProcessInit/ProcessRun/handleAction, supOFO/supARFO) on a fake gen.Process; symbolic history of child exits incl. a death during the stopping phase; restart scope, order, view consistency"},
+		{Pkg: "act", Func: "VerifC08Significant", Shards: 12, Params: map[string]int64{"children": 2, "events": 2}, Thorough: map[string]int64{"children": 3, "events": 3},
+			What: "significant children and auto-shutdown end the supervisor exactly as documented (type x {Transient,Temporary} x auto-shutdown, symbolic Significant flags)"},
+	}},
+	{ID: "C09", Entries: []Entry{
+		{Pkg: "act", Func: "VerifC09Intensity", Params: map[string]int64{"calls": 4, "maxintensity": 2}, Thorough: map[string]int64{"calls": 6, "maxintensity": 4},
+			What: "real supCheckRestartIntensity over k consecutive failures at symbolic instants vs the windowed-count reference"},
+		{Pkg: "act", Func: "VerifC09Supervisor", Shards: 3, Params: map[string]int64{"children": 2, "failures": 3}, Thorough: map[string]int64{"children": 3, "failures": 4},
+			What: "restart intensity through the real supervisor (one/all/rest-for-one, Intensity 1, Period 5 s, symbolic clock): restart within the limit, stop everything and end with ErrSupervisorRestartsExceeded beyond it"},
+	}},
 	{ID: "C06", Entries: []Entry{
 		{Pkg: "node", Func: "VerifC06MakeRef", What: "real (*node).MakeRef at counter c0 and c0+d: references differ for every c0 < 2^62, 1 <= d < 2^62"},
 	}},
